@@ -439,6 +439,62 @@ def ord5(ctx, pid):
             ctx.bad(cst, e.where(), "root assigned after the batch does not come from the batch trie")
 
 
+@rule("ADOPT", ["C05", "C06", "C01"])
+def adopt(ctx, pid):
+    """squash_changes and the reference counts: the batch gets None exactly when the outer trie keeps no counts
+    and a copy of them otherwise; after a committed batch the outer trie adopts the batch's counts exactly
+    when it is pruning."""
+    from .. import pq
+    from ..pq import rel_norm, truth_norm
+    from ..sym import C, tstr
+    f, (w, cm_call), y, (bcls, bcall) = _squash(ctx)
+    eng = sym(ctx)
+    RC = ("attr", ("self",), "_ref_count")
+    ISP = ("attr", ("self",), "is_pruning")
+    init = bcls.methods["__init__"]
+    probs = []
+    seen = set()
+    for p, st in pq.states(ctx, f):
+        if p.exit[0] not in ("return", "fall"):
+            continue
+        none = isp = None
+        for t, pol, _ in st.log:
+            r = rel_norm(t, pol)
+            if r is not None and r[1] == RC and r[2] == C(None) and r[0] in ("is", "isnot", "==", "!="):
+                none = r[0] in ("is", "==")
+            elif r is None:
+                tt, pp = truth_norm(t, pol)
+                if tt == ISP:
+                    isp = pp
+        amap = ctx.E.bind_args(bcall, init, skip_self=True)
+        a = amap.get("ref_count")
+        at = eng.ev(a, f, st) if a is not None else C(None)
+        if none is None:
+            probs.append("the batch's reference counts do not depend on whether the outer trie keeps counts")
+        elif none and at != C(None):
+            probs.append("outer trie without counts: the batch is given `%s`, expected None" % tstr(at)[:40])
+        elif not none and not (at[0] == "call" and at[1] in ("m:copy", "ext:copy.copy", "ext:dict", "ext:collections.defaultdict") and RC in at[2]):
+            probs.append("outer trie with counts: the batch is given `%s`, expected a copy of self._ref_count" % tstr(at)[:40])
+        got = st.attrs.get("self._ref_count")
+        if isp is None:
+            probs.append("after the commit the counts are handled without looking at is_pruning")
+            continue
+        seen.add(isp)
+        if isp and got is None:
+            probs.append("a pruning trie does not adopt the batch's reference counts after the commit: its counts describe the old trie")
+        if isp and got is not None and (got == RC or got == at):
+            probs.append("a pruning trie adopts `%s` after the commit, not the counts the batch ended up with" % tstr(got)[:40])
+        if not isp and got is not None:
+            probs.append("a non-pruning trie is given reference counts after a batch")
+    c = "adopt-counts:HexaryTrie.squash_changes"
+    if probs:
+        ctx.bad(c, f.loc(), probs[0], witness={"problems": sorted(set(probs))})
+    elif seen != {True, False}:
+        ctx.unsure(c, f.loc(), "committed paths found for is_pruning in %s" % sorted(seen))
+    else:
+        ctx.ok(c, f.loc(), "batch counts: None iff the outer trie has none, else a copy; adopted after the commit iff the outer trie prunes")
+
+
 def _derives_from_batch(ctx, f, name, byv):
     bs = ctx.E.bindings(f).get(name) or []
     for b in bs:
